@@ -154,10 +154,13 @@ impl XmlConverter {
                     }
                 }
                 if let Some((prefix, uri)) = ns {
+                    // The writer copies a namespace declaration into the document as
+                    // it is, so the uri is escaped here like any attribute value.
+                    let uri = xml::escape::escape_str_attribute(uri).into_owned();
                     if prefix.is_empty() {
-                        start = start.default_ns(uri);
+                        start = start.default_ns(uri.as_str());
                     } else {
-                        start = start.ns(prefix, uri);
+                        start = start.ns(prefix, uri.as_str());
                     }
                 }
                 w.write(start)?;
